@@ -370,6 +370,7 @@ fn mod_base(i: usize) -> u64 {
     0x1000_0000 + (i as u64) * 0x10_0000
 }
 const MOD_SIZE: u32 = 0x1_0000;
+const UNLOADED_BASE: u64 = 0x2000_0000;
 fn stack_base(t: usize) -> u64 {
     0x7000_0000 + (t as u64) * 0x1_0000
 }
@@ -442,13 +443,24 @@ fn build_dump(c: &RunCase) -> Vec<u8> {
             .add_module(synth::Module::new(LE, mod_base(i), MOD_SIZE, &name, 0x5000_0000 + i as u32, 0, None))
             .add(name);
     }
+    // unloaded modules: overlapping ranges, repeated names — every thread's outermost return address
+    // lands in several of them (JSON `frames[*].unloaded_modules`: names and offsets)
+    for (k, (name, off)) in [("old1.so", 0u64), ("zold.so", 0x1000), ("old1.so", 0x2000), ("aold.so", 0x3000), ("mold.so", 0x4000), ("old2.so", 0x4800), ("bold.so", 0x0800)]
+        .iter()
+        .enumerate()
+    {
+        let n = synth::DumpString::new(name, LE);
+        dump = dump
+            .add_unloaded_module(synth::UnloadedModule::new(LE, UNLOADED_BASE + off, 0x8000, &n, 0x4000_0000 + k as u32, 0))
+            .add(n);
+    }
     for (t, chain) in c.thr.iter().enumerate() {
         let base = stack_base(t);
         let depth = chain.len();
         let mut stack = Section::with_endian(LE);
         for j in 0..depth {
             let cfa = base + 32 * (j as u64 + 1);
-            let ret = if j + 1 < depth { mod_base(chain[j + 1]) + frame_off(j + 1) + 4 } else { 0 };
+            let ret = if j + 1 < depth { mod_base(chain[j + 1]) + frame_off(j + 1) + 4 } else { UNLOADED_BASE + 0x5000 + 0x10 * (t as u64 % 64) };
             stack = stack
                 .D64(0x5a00 + (t as u64) * 0x100 + j as u64) // x19 save (cfa-32)
                 .D64(0xA000_0000 + (t as u64) * 0x100 + j as u64) // `fp:` slot (cfa-24)
